@@ -327,15 +327,16 @@ pub fn list_header(header: &str) -> Vec<ValueQualitySet<'_>> {
         }
 
         if byte == ',' {
+            // optional whitespace is allowed around the value, the `;`, and before the `,`
             let quality = header
                 .get(quality_start_byte..position)
-                .and_then(|quality| quality.parse().ok())
+                .and_then(|quality| quality.trim().parse().ok())
                 .unwrap_or(1.0);
             if let Some(accept) =
                 header.get(start_byte..if end_byte == 0 { position } else { end_byte })
             {
                 list.push(ValueQualitySet {
-                    value: accept,
+                    value: accept.trim(),
                     quality,
                 });
             }
@@ -352,7 +353,7 @@ pub fn list_header(header: &str) -> Vec<ValueQualitySet<'_>> {
     // Last, when reaches EOF
     let quality = header
         .get(quality_start_byte..)
-        .and_then(|quality| quality.parse().ok())
+        .and_then(|quality| quality.trim().parse().ok())
         .unwrap_or(1.0);
     if let Some(accept) = header.get(
         start_byte..if end_byte == 0 {
@@ -362,7 +363,7 @@ pub fn list_header(header: &str) -> Vec<ValueQualitySet<'_>> {
         },
     ) {
         list.push(ValueQualitySet {
-            value: accept,
+            value: accept.trim(),
             quality,
         });
     }
